@@ -154,6 +154,8 @@ type Report struct {
 	WallS       float64
 	Lemmas      int
 	Slow        []string
+	Canaries    []map[string]interface{}
+	CrossOK     int
 }
 
 func buildReport(e *Engine, prop, tier string, ts []*fnTrans, trusted []*FuncContract, out string, noReplay, full bool) *Report {
@@ -209,6 +211,9 @@ func buildReport(e *Engine, prop, tier string, ts []*fnTrans, trusted []*FuncCon
 				r.Slow = append(r.Slow, fmt.Sprintf("%s %dms %s", o.Name, o.TimeMS, o.Solver))
 			}
 			if o.Result == "unsat" {
+				if o.Confirmed >= 2 {
+					r.CrossOK++
+				}
 				r.Discharged++
 				r.BySolver[o.Solver]++
 				if len(r.Samples) < 12 && o.Kind != "safety" {
@@ -294,6 +299,9 @@ func (r *Report) print(verbose bool) {
 	for _, k := range r.Known {
 		fmt.Println(k)
 	}
+	for _, c := range r.Canaries {
+		fmt.Printf("  canary %v: detected=%v %v%v\n", c["seed"], c["detected"], c["failed_obligations"], c["error"])
+	}
 	for _, l := range r.ViolLines {
 		fmt.Println(l)
 	}
@@ -335,6 +343,8 @@ func (r *Report) writeEvidence(path string) error {
 			"known_findings_hit":       r.Known,
 			"missing_locked":           r.Missing,
 			"samples":                  samples,
+			"canaries":                 r.Canaries,
+			"confirmed_by_second_solver": r.CrossOK,
 		},
 		"assumptions": r.Assumptions,
 		"wall_s":      r.WallS,
